@@ -12,6 +12,8 @@ RULES = {
     "C16.R1": "no NaN into float codes: on the float8 path of the symmetric quantizer the quotient base/scale is sanitised (0/0 -> 0) before the cast, or every scale source is bounded away from zero",
     "C16.R2": "collapsed groups: an affine scale can be zero only for an all-zero group, i.e. the affine range includes zero",
     "C16.R3": "the zero-point and the int8 subtraction of the dequantizer stay in range (needs R2)",
+    "C16.R5": "one-sided rows: the default symmetric optimizer and absmax_scale take the maximum of |x| on every path (a row whose extreme is negative still gets absmax/qmax)",
+    "C16.R6": "magnitudes near the dtype maximum: the affine range width and the zero-point are computed without an intermediate that exceeds the extrema themselves (no raw `rmax - rmin` of opposite-sign extrema, no extremum multiplied by the code span)",
     "C16.R4": "dequantization multiplies codes by the scale only: a zero scale yields exactly zero, a finite scale finite values",
 }
 
@@ -89,4 +91,93 @@ def run(chk):
         divs = [U(nd) for nd in ast.walk(fw) if isinstance(nd, ast.BinOp) and isinstance(nd.op, (ast.Div, ast.FloorDiv, ast.Pow))]
         calls = [U(nd.func) for nd in ast.walk(fw) if isinstance(nd, ast.Call) and U(nd.func).split(".")[-1] in ("div", "reciprocal", "log", "exp", "sqrt", "pow")]
         chk.require("C16.R4", f"{dq.mod.rel}:{fw.lineno}", not divs and not calls, f"{cname}.forward only multiplies and subtracts (divisions: {divs}, calls: {calls})", f"{cname}.forward", "dequantizer arithmetic", "a zero scale or zero code: division by zero on dequantization")
-    chk.assume("x * 0 == 0 and finite * finite is finite within the dtype range (value-dependent overflow near the dtype maximum is not decided)")
+    abs_rule(chk)
+    overflow_rule(chk)
+    chk.assume("x * 0 == 0 and finite * finite is finite within the dtype range; overflow near the dtype maximum is decided for the affine range width and zero-point only (C16.R6), where an intermediate can exceed the data by construction")
+
+
+def abs_rule(chk):
+    """C16.R5: every symmetric range is a maximum of |x| (shares the recogniser of C03.R2)."""
+    from .. import scales
+    repo = chk.repo
+    mi_q, _ = repo.func("quantize_weight")
+    targets = []
+    sd = mi_q.defs.get("default_symmetric_optimizer")
+    if isinstance(sd, ast.Call):
+        oci, opt = repo.method(repo.cls(U(sd.func), mi_q), "optimize")
+        targets.append((oci.mod, opt, f"{oci.name}.optimize", positional_params(opt)[1]))
+    m, f = repo.func("absmax_scale")
+    targets.append((m, f, "absmax_scale", positional_params(f)[0]))
+    n = 0
+    for mi, fn, qn, b in targets:
+        for p in paths_of(fn):
+            if p.end[0] != "return":
+                continue
+            e, _floors = scales.peel_floor(p.end[1])
+            site = f"{mi.rel}:{p.end[2]}"
+            if not (isinstance(e, ast.BinOp) and isinstance(e.op, ast.Div)):
+                chk.unknown("C16.R5", site, f"{qn}: scale `{U(e)[:60]}` is not range / qmax")
+                continue
+            r = scales.reduction(e.left)
+            if r is None:
+                chk.unknown("C16.R5", site, f"{qn}: numerator `{U(e.left)[:60]}` is not a max/amax reduction")
+                continue
+            n += 1
+            chk.require("C16.R5", site, r.n_abs >= 1 and r.source == b, f"{qn}: the range is a maximum of |{b}| (abs x{r.n_abs} of `{r.source}`)", qn, "abs before max",
+                        "a row (or a tensor quantized per-tensor, e.g. Linear(n, 1)) whose largest magnitude is negative: the scale is too small, zero or negative")
+    chk.floor("C16.R5", n, 3, "symmetric range terms")
+
+
+def _is_extremum(e, b) -> bool:
+    from .. import scales
+    for n in ast.walk(e):
+        r = scales.reduction(n) if isinstance(n, ast.Call) else None
+        if r is not None and r.reduce in ("amax", "amin", "max", "min") and r.source == b:
+            return True
+    return False
+
+
+def overflow_rule(chk):
+    """C16.R6: intermediates of the affine range never exceed the extrema by construction."""
+    from ..core import fold_int
+    repo = chk.repo
+    mi_q, _ = repo.func("quantize_weight")
+    default = mi_q.defs.get("default_affine_optimizer")
+    if not (isinstance(default, ast.Call) and isinstance(default.func, ast.Name)):
+        chk.unknown("C16.R6", mi_q.rel, "default affine optimizer not found")
+        return
+    oci, opt = repo.method(repo.cls(default.func.id, mi_q), "optimize")
+    b, bits = positional_params(opt)[1:3]
+    qn = f"{oci.name}.optimize"
+    n = 0
+    for p in paths_of(opt):
+        if p.end[0] != "return" or not (isinstance(p.end[1], ast.Tuple) and len(p.end[1].elts) == 2):
+            continue
+        n += 1
+        site = f"{oci.mod.rel}:{p.end[2]}"
+        sc, z = p.end[1].elts
+        widened = any(isinstance(x, ast.Call) and isinstance(x.func, ast.Attribute) and x.func.attr in ("double",) for x in ast.walk(sc))
+        # (a) a difference of two raw extrema: |rmax - rmin| reaches |rmax| + |rmin| for a mixed-sign group
+        diffs = [x for x in ast.walk(sc) if isinstance(x, ast.BinOp) and isinstance(x.op, ast.Sub) and _is_extremum(x.left, b) and _is_extremum(x.right, b)
+                 and not any(isinstance(y, ast.BinOp) and isinstance(y.op, ast.Div) for y in (x.left, x.right))]
+        if diffs and not widened:
+            chk.bad("C16.R6", site, qn, "range width overflows", f"{qn}: the scale subtracts two raw extrema (`{U(diffs[0])[:70]}`) in the working dtype: for a group holding values of both signs beyond half the dtype maximum the difference is inf, the scale is inf and every element dequantizes to NaN (0 x inf)",
+                    "float16 weights with +5e4 and -5e4 in one group (or float32 with +/-3e38): quantize_weight(w, qint4, 0, 32).dequantize() is NaN for that group")
+        else:
+            chk.ok("C16.R6", site, f"{qn}: the range width is not a raw difference of extrema in the working dtype")
+        # (b) an extremum multiplied by a constant > 1 (e.g. the code span) before any division
+        prods = []
+        for x in list(ast.walk(z)) + list(ast.walk(sc)):
+            if isinstance(x, ast.BinOp) and isinstance(x.op, ast.Mult):
+                for ext, k in ((x.left, x.right), (x.right, x.left)):
+                    if _is_extremum(ext, b) and not any(isinstance(y, ast.BinOp) and isinstance(y.op, ast.Div) for y in ast.walk(ext)):
+                        vals = [fold_int(k, {bits: nb}) for nb in (2, 4)]
+                        if all(isinstance(v, (int, float)) for v in vals) and max(abs(v) for v in vals) > 1:
+                            prods.append((x, vals))
+        if prods:
+            x, vals = prods[0]
+            chk.bad("C16.R6", site, qn, "extremum multiplied before the division", f"{qn}: `{U(x)[:80]}` multiplies an extremum by {vals} (bits 2/4) before dividing: the product is inf for |x| beyond dtype_max/{max(vals)} although the quotient is at most the code span",
+                    "float16 weights with values around 2e4 of both signs (or float32 around 1e38), qint4: the zero-point becomes 0 and one side of the group collapses")
+        else:
+            chk.ok("C16.R6", site, f"{qn}: no extremum is multiplied by a constant larger than one")
+    chk.floor("C16.R6", n, 1, "affine optimizer return paths")
